@@ -85,7 +85,7 @@ var otherExts = []string{"jpg", "PNG", "bin", "odttf", "emf", "gz", ""}
 var hfNames = map[string]string{"1": "HDefault", "first": "HFirst", "even": "HEven"}
 var reMedia = regexp.MustCompile(`^word/media/image([+-]?[0-9]{1,15})\.(.*)$`)
 var reHF = regexp.MustCompile(`^word/(header|footer)(1|first|even)\.xml$`)
-var reHFOther = regexp.MustCompile(`^word/(header|footer)([2-4])\.xml$`)
+var reHFOther = regexp.MustCompile(`^word/(header|footer)([2-9]|[1-9][0-9]{1,3})\.xml$`)
 var reHFRels = regexp.MustCompile(`^word/_rels/(header|footer)(1|first|even|[2-4])\.xml\.rels$`)
 var reForeignPart = regexp.MustCompile(`^word/x/f([0-9]+)\.(.*)$`)
 var reOddMedia = regexp.MustCompile(`^word/media/odd([0-9]+)\.(.*)$`)
@@ -135,12 +135,12 @@ func absPart(name string) string {
 		return "(" + c + " " + hfNames[m[2]] + ")"
 	}
 	if m := reHFOther.FindStringSubmatch(name); m != nil {
+		// header<n>.xml, n >= 2: a name the library itself uses when its own name for a kind is taken
 		n, _ := strconv.Atoi(m[2])
-		base := 200
 		if m[1] == "footer" {
-			base = 300
+			return fmt.Sprintf("(PFooterN %d)", n)
 		}
-		return fmt.Sprintf("(PForeign %d EXml)", base+n)
+		return fmt.Sprintf("(PHeaderN %d)", n)
 	}
 	if m := reHFRels.FindStringSubmatch(name); m != nil {
 		idx := map[string]int{"1": 0, "first": 1, "even": 2, "2": 3, "3": 4, "4": 5}[m[2]]
